@@ -86,10 +86,10 @@ func (r *Value) set(value proto.Message, request WriteRequest) (proto.Message, e
 	ctx, cancel := context.WithTimeout(context.TODO(), time.Second*5)
 	defer cancel()
 	simhook.Yield("value.publish")
-	r.bus.Send(ctx, &ValueChange{
+	r.bus.Send(ctx, publishedValue{ticket: ticket, change: &ValueChange{
 		Value:      newValue,
 		ChangeTime: request.updateTime(r.clock),
-	})
+	}})
 	if errors.Is(ctx.Err(), context.DeadlineExceeded) {
 		return nil, errors.New("bus.Send blocked for too long")
 	}
@@ -104,7 +104,7 @@ func (r *Value) set(value proto.Message, request WriteRequest) (proto.Message, e
 func (r *Value) Pull(ctx context.Context, opts ...ReadOption) <-chan *ValueChange {
 	readConfig := ComputeReadConfig(opts...)
 	filter := readConfig.ResponseFilter()
-	on, currentValue, changeTime := r.onUpdate(ctx, readConfig)
+	on, currentValue, changeTime, reflected := r.onUpdate(ctx, readConfig)
 	typedEvents := make(chan *ValueChange)
 	go func() {
 		defer close(typedEvents)
@@ -121,7 +121,11 @@ func (r *Value) Pull(ctx context.Context, opts ...ReadOption) <-chan *ValueChang
 
 		last := currentValue
 		for event := range on {
-			change := event.(*ValueChange).filter(filter)
+			published := event.(publishedValue)
+			if published.ticket < reflected {
+				continue // committed before the seed was taken, published after we subscribed: the seed has it
+			}
+			change := published.change.filter(filter)
 			if r.equivalence != nil && r.equivalence.Compare(last, change.Value) {
 				continue
 			}
@@ -136,10 +140,14 @@ func (r *Value) Pull(ctx context.Context, opts ...ReadOption) <-chan *ValueChang
 	return typedEvents
 }
 
-func (r *Value) onUpdate(ctx context.Context, config *ReadRequest) (<-chan any, proto.Message, time.Time) {
+// onUpdate subscribes to changes and, unless config asks for updates only, takes the seed in the same critical section.
+// Writers publish after releasing the lock, so a write that the seed already contains may still be published to the
+// new subscription; reflected tells such events (those with a smaller ticket) apart.
+func (r *Value) onUpdate(ctx context.Context, config *ReadRequest) (<-chan any, proto.Message, time.Time, uint64) {
 	var (
 		value      proto.Message
 		changeTime time.Time
+		reflected  uint64
 	)
 	if !config.UpdatesOnly {
 		simhook.BeforeRLock("value.sub.snapshot", &r.mu)
@@ -147,6 +155,7 @@ func (r *Value) onUpdate(ctx context.Context, config *ReadRequest) (<-chan any, 
 		defer r.mu.RUnlock()
 		value = r.value
 		changeTime = r.changeTime
+		reflected = r.pub.issued()
 	}
 
 	simhook.Yield("value.sub.listen")
@@ -155,7 +164,7 @@ func (r *Value) onUpdate(ctx context.Context, config *ReadRequest) (<-chan any, 
 		ch = minibus.DropExcess(ch)
 	}
 
-	return ch, value, changeTime
+	return ch, value, changeTime, reflected
 }
 
 func timeoutAlarm(duration time.Duration, fmt string, args ...any) (disarm func()) {
